@@ -236,6 +236,25 @@ fn no_mult() -> BoxedStrategy<f64> {
     Just(0.0).boxed()
 }
 
+/// prices quoted in an extremely small unit (normal numbers around 1e-303 whose products with small
+/// volumes and smoothing factors are subnormal): absolute thresholds such as f64::MIN_POSITIVE,
+/// is_normal() or EPSILON hidden in a guard show up only here. CCI is left out: 0.015*MAD itself would be
+/// a coarse subnormal, so its documented formula is not evaluable to the stated tolerance there.
+const TSK: [Kind; 5] = [Kind::FastStoch, Kind::SlowStoch, Kind::Roc, Kind::Er, Kind::Ppo];
+const TBK: [Kind; 4] = [Kind::FastStoch, Kind::SlowStoch, Kind::Mfi, Kind::Obv];
+fn tiny_strategy() -> BoxedStrategy<Case> {
+    prop_oneof![
+        cfg_among(&TSK, 64, no_mult).prop_flat_map(|cfg| { let n = cfg.n(); (Just(cfg), stream(Domain::TinyNormal, 1, 4 * n + 60)) }).prop_map(|(cfg, s)| Case { cfg, scalar: true, xs: xs(&s.vals), bars: vec![] }),
+        cfg_among(&TBK, 64, no_mult).prop_flat_map(|cfg| { let n = cfg.n(); (Just(cfg), bar_stream_dom(Domain::TinyNormal, 1, 4 * n + 60), 0usize..3) }).prop_map(|(cfg, s, vs)| {
+            // volumes: as generated, or scaled down to fractional lots (flows become subnormal)
+            let f = [1.0, 1e-3, 1e-5][vs];
+            let bars = s.bars.into_iter().map(|mut b| { b.v *= f; b }).collect();
+            Case { cfg, scalar: false, xs: vec![], bars }
+        }),
+    ]
+    .boxed()
+}
+
 fn strategy(lo: usize, hi: usize, extra: usize) -> BoxedStrategy<Case> {
     prop_oneof![
         cfg_among(&SK, 512, no_mult)
@@ -292,4 +311,41 @@ pub fn run(g: &mut Global) {
     let hi = g.tier.pick(400usize, 3000usize);
     g.random("random", g.tier.pick(60000, 400000), &move || strategy(1, hi, 0), &check);
     g.random("long", g.tier.pick(48, 600), &|| strategy(5000, 10000, 0), &check);
+    g.random("tiny_units", g.tier.pick(8000, 60000), &tiny_strategy, &check);
+    // ultra-long single-instance streams (see props/longrun.rs and c13::check_as)
+    let lc: Vec<(Cfg, bool)> = vec![
+        (Cfg { kind: Kind::Rsi, p: vec![14], m: X(0.0) }, true),
+        (Cfg { kind: Kind::Rsi, p: vec![3], m: X(0.0) }, true),
+        (Cfg { kind: Kind::FastStoch, p: vec![14], m: X(0.0) }, false),
+        (Cfg { kind: Kind::FastStoch, p: vec![5], m: X(0.0) }, true),
+        (Cfg { kind: Kind::SlowStoch, p: vec![14, 3], m: X(0.0) }, false),
+        (Cfg { kind: Kind::SlowStoch, p: vec![5, 2], m: X(0.0) }, true),
+        (Cfg { kind: Kind::Roc, p: vec![9], m: X(0.0) }, true),
+        (Cfg { kind: Kind::Er, p: vec![14], m: X(0.0) }, true),
+        (Cfg { kind: Kind::Ppo, p: vec![12, 26, 9], m: X(0.0) }, true),
+        (Cfg { kind: Kind::Obv, p: vec![], m: X(0.0) }, false),
+    ];
+    let seed = g.seed;
+    let nl = lc.len() as u64;
+    let l16 = g.tier.pick(70_000usize, 300_000usize);
+    let lc1 = lc.clone();
+    g.exhaustive("ultra_2^16", nl * g.tier.pick(2, 5), &move |i| crate::props::longrun::grid_case(&lc1, i, seed, l16), &|c, ctx| crate::props::longrun::check_long(c, ctx, "C03"));
+    let l24 = (1usize << 24) + 5000;
+    g.exhaustive("ultra_2^24", g.tier.pick(4, nl * 2), &move |i| crate::props::longrun::grid_case(&lc, i * 3 + 2, seed ^ 0x24, l24), &|c, ctx| crate::props::longrun::check_long(c, ctx, "C03"));
+    // CCI and MFI (windowed, recomputed from the harness's ring at sampled steps)
+    let wk = [(Kind::Mfi, 14usize), (Kind::Mfi, 3), (Kind::Cci, 20), (Kind::Cci, 4)];
+    g.exhaustive(
+        "ultra_windowed",
+        g.tier.pick(4 * 3, 4 * 5 * 2),
+        &move |i| {
+            let (kind, n) = wk[(i % 4) as usize];
+            let regime = [3usize, 0, 4, 1, 2][((i / 4) % 5) as usize];
+            let mut s = seed ^ (i + 7).wrapping_mul(0xA0761D6478BD642F);
+            let sd = splitmix(&mut s);
+            // MFI is O(1) per step: beyond 2^24 evictions; CCI is O(n): beyond 2^16
+            let len = if kind == Kind::Mfi { (1usize << 24) + 4000 } else { 140_000 };
+            crate::props::c13::Case { kind, n, regime, base: X([0.37, 85.18, 1e4][(sd % 3) as usize]), seed: sd, len, saw: 2 + (sd >> 9) as usize % (n + 2) }
+        },
+        &|c, ctx| crate::props::c13::check_as(c, ctx, "C03", true),
+    );
 }
